@@ -25,6 +25,7 @@ type c08Scenario struct {
 	Suite   uint16 `json:"suite"`
 	Resumed bool   `json:"resumed"`
 	CertReq bool   `json:"certreq"` // server requests a client certificate
+	Policy  int    `json:"policy"`  // the server's ClientAuthType when CertReq (0 = RequireAndVerifyClientCert)
 	Packed  bool   `json:"packed"`  // consecutive handshake messages of the peer share one record
 }
 
@@ -117,6 +118,9 @@ func c08Prepare(sc c08Scenario) (*c08World, string) {
 	scfg := &Config{Time: vfTime, Certificates: []Certificate{p.SrvSig, p.SrvEnc}, CipherSuites: []uint16{sc.Suite}, ClientCAs: p.A.pool}
 	if sc.CertReq {
 		scfg.ClientAuth = RequireAndVerifyClientCert
+		if sc.Policy != 0 {
+			scfg.ClientAuth = ClientAuthType(sc.Policy)
+		}
 	}
 	if sc.Resumed {
 		cc, scc := vfNewCapCache(4), vfNewCapCache(4)
@@ -512,6 +516,9 @@ func c08Scenarios() []c08Scenario {
 					out = append(out, c08Scenario{Suite: s, Resumed: resumed, CertReq: vfIsECDHE(s), Packed: packed})
 					if !vfIsECDHE(s) && !resumed {
 						out = append(out, c08Scenario{Suite: s, CertReq: true, Packed: packed})
+						// optional policies: the Certificate message is still mandatory once requested
+						out = append(out, c08Scenario{Suite: s, CertReq: true, Policy: int(RequestClientCert), Packed: packed})
+						out = append(out, c08Scenario{Suite: s, CertReq: true, Policy: int(VerifyClientCertIfGiven), Packed: packed})
 					}
 				}
 			}
